@@ -34,53 +34,31 @@ theorem alignCap_aligned (ch cap : Nat) (h : ch = 0 ∨ cap % ch = 0) : alignCap
 /-- **in place**: the old capacity suffices. Nothing is reallocated: same block, same offset, same
 capacity; the length grows by exactly the source length; exactly the cells
 `[off+len, off+len+|src|)` of the destination's block receive the source samples in order – so every
-other view of that storage sees the appended samples – and every other cell of every block (the
-source included) is unchanged.  `self = true` is `b.Append(b)`. -/
+other view of that storage sees the appended samples – and every other cell of every block is
+unchanged.  `self = true` is `b.Append(b)`.  No disjointness is assumed: as with `append` on plain Go
+slices the source samples are those of the state *before* the call, also when the source is a window
+of the destination's own spare capacity (it is then overwritten, which is why C03 itself presupposes a
+source that does not overlap; C12 does not). -/
 theorem append_in_place (h : Heap) (dst src : Buf) (self : Bool) (g : Nat)
     (hch : dst.ch = src.ch) (hwd : dst.wf h) (hws : src.wf h)
     (hal : dst.ch = 0 ∨ dst.cap % dst.ch = 0)
     (hfit : dst.len + src.len ≤ dst.cap)
-    (hself : self = true → src = dst)
-    (hdis : self = false → (src.blk ≠ dst.blk ∨ src.off + src.len ≤ dst.off + dst.len ∨
-              dst.off + dst.len + src.len ≤ src.off)) :
+    (hself : self = true → src = dst) :
     dst.append h src self g =
       .ok (storeList h dst.blk (dst.off + dst.len) (cells h src)) { dst with len := dst.len + src.len } := by
   unfold Buf.append
   have ne : ¬ dst.ch ≠ src.ch := by simp [hch]
   have nlt : ¬ dst.cap < dst.len + src.len := by omega
   simp only [ne, if_false, nlt]
-  have hcl := cells_length h src
-  have key : ∀ src1 : Buf, src1.blk = src.blk → src1.off = src.off → src.len ≤ src1.len →
-      xferLoop some src1 { dst with len := dst.len + src.len } dst.len (List.range src.len) h =
-        .ok (storeList h dst.blk (dst.off + dst.len) (cells h src)) () := by
-    intro src1 e1 e2 e3
-    have := xferLoop_closed some src1 { dst with len := dst.len + src.len } dst.len (cells h src) (cells h src) 0 h
-      (by intro j hj; rw [hcl] at hj; rw [e1, e2, Nat.zero_add]; exact cells_get h src hws j hj)
-      (mapM_some _) (by rw [hcl]; omega) (by rw [hcl]; simp) ⟨by simp; omega, hwd.2⟩
-      (by
-        rw [hcl, e1, e2]
-        cases hs : self with
-        | true => have := hself hs; subst this; right; left; simp
-        | false => rcases hdis hs with d | d | d
-                   · left; exact d
-                   · right; left; simpa using d
-                   · right; right; simpa using d)
-    rw [hcl, List.range_eq_range', Nat.zero_add] at *
-    simpa using this
+  rw [alignCap_aligned _ _ hal]
   cases hs : self with
   | true =>
     have e := hself hs; subst e
     simp only [if_true]
-    have k1 := key { src with len := src.len + src.len } rfl rfl (by simp)
-    rw [k1]
-    simp only [Res.bind]
-    rw [alignCap_aligned _ _ hal]
+    rfl
   | false =>
     simp only [Bool.false_eq_true, if_false]
-    have k1 := key src rfl rfl (Nat.le_refl _)
-    rw [k1]
-    simp only [Res.bind]
-    rw [alignCap_aligned _ _ hal]
+    rfl
 
 /-- what every cell holds after an in-place append -/
 theorem append_in_place_cells (h : Heap) (dst src : Buf) (hwd : dst.wf h) (hws : src.wf h)
@@ -123,40 +101,26 @@ theorem append_grow (h : Heap) (dst src : Buf) (self : Bool) (g : Nat)
   have hw1 : dst1.wf h1 := ⟨by simp [dst1]; omega, grownBlock h dst g, hblk, by simp [dst1, hgl]⟩
   have hsrcblk : src.blk < h.length := by
     obtain ⟨_, bl, hb, _⟩ := hws; exact (List.getElem?_eq_some_iff.mp hb).1
-  have key : ∀ src1 : Buf, src.len ≤ src1.len →
-      (∀ j, j < src.len → cell h1 src1.blk (src1.off + j) = (cells h src)[j]?) →
-      (src1.blk ≠ h.length ∨ src1.off + src.len ≤ dst.len) →
-      xferLoop some src1 dst1 dst.len (List.range src.len) h1 =
-        .ok (storeList h1 h.length dst.len (cells h src)) () := by
-    intro src1 e3 hrd hd
-    have := xferLoop_closed some src1 dst1 dst.len (cells h src) (cells h src) 0 h1
-      (by intro j hj; rw [hcl] at hj; rw [Nat.zero_add]; exact hrd j hj)
-      (mapM_some _) (by rw [hcl]; omega) (by rw [hcl]; simp [dst1]) hw1
-      (by rw [hcl]; rcases hd with d | d
-          · left; simpa [dst1] using d
-          · right; left; simpa [dst1] using d)
-    rw [hcl, List.range_eq_range', Nat.zero_add] at *
-    simpa [dst1] using this
   have hal : alignCap dst.ch g = g := alignCap_aligned _ _ (by rcases hg2 with a | a; left; exact a; right; exact a)
-  change ((xferLoop some (if self = true then dst1 else src) dst1 dst.len (List.range src.len) h1).bind
-      fun h2 _ => Res.ok h2 { dst1 with cap := alignCap dst1.ch dst1.cap }) = Res.ok (storeList h1 h.length dst.len (cells h src)) dst1
-  cases hs : self with
-  | true =>
-    have e := hself hs
-    simp only [if_true]
-    have k1 := key dst1 (by rw [e]; simp [dst1]) ?_ (by right; rw [e]; simp [dst1])
-    · rw [k1]; simp only [Res.bind, dst1, hal]
-    · intro j hj
-      subst e
-      have hj' : j < (List.range src.len).length := by simpa using hj
-      simp [dst1, cell, h1, grownBlock, cells, hj, List.getElem?_append_left]
-  | false =>
-    simp only [Bool.false_eq_true, if_false]
-    have k1 := key src (Nat.le_refl _) ?_ (by left; omega)
-    · rw [k1]; simp only [Res.bind, dst1, hal]
-    · intro j hj
-      rw [← cells_get h src hws j hj]
+  -- what `copy` reads from the (possibly moved) source is what the source held before the call
+  have hfc : Buf.firstCells h1 (if self = true then dst1 else src) src.len = cells h src := by
+    unfold Buf.firstCells cells
+    apply List.map_congr_left
+    intro j hj
+    have hj' : j < src.len := List.mem_range.mp hj
+    cases hs : self with
+    | true =>
+      have e := hself hs; subst e
+      simp only [if_true]
+      have hj'' : j < (List.range src.len).length := by simpa using hj'
+      simp [dst1, cell, h1, grownBlock, hj', List.getElem?_append_left]
+    | false =>
+      simp only [Bool.false_eq_true, if_false]
       simp [cell, h1, List.getElem?_append_left hsrcblk]
+  show Res.ok (storeList h1 h.length (0 + dst.len) (Buf.firstCells h1 (if self = true then dst1 else src) src.len))
+      { dst1 with cap := alignCap dst1.ch dst1.cap } = Res.ok (storeList h1 h.length dst.len (cells h src)) dst1
+  rw [hfc, Nat.zero_add]
+  simp only [dst1, hal]
 
 /-- after a growing append: existing blocks are untouched, the new block did not exist -/
 theorem append_grow_old_untouched (h : Heap) (dst src : Buf) (g : Nat) (blk i : Nat) (hb : blk < h.length) :
@@ -198,12 +162,10 @@ theorem append_cap_aligned (h : Heap) (dst src : Buf) (self : Bool) (g : Nat) (h
     (hch : dst.ch = src.ch) (hwd : dst.wf h) (hws : src.wf h) (hal : dst.ch = 0 ∨ dst.cap % dst.ch = 0)
     (hg : dst.cap < dst.len + src.len → growOK dst src g = true)
     (hself : self = true → src = dst)
-    (hdis : self = false → dst.len + src.len ≤ dst.cap → (src.blk ≠ dst.blk ∨ src.off + src.len ≤ dst.off + dst.len ∨
-              dst.off + dst.len + src.len ≤ src.off))
     (hr : dst.append h src self g = .ok h' b') :
     b'.len = dst.len + src.len ∧ b'.len ≤ b'.cap ∧ (b'.ch = 0 ∨ b'.cap % b'.ch = 0) ∧ b'.ch = dst.ch := by
   by_cases hfit : dst.len + src.len ≤ dst.cap
-  · rw [append_in_place h dst src self g hch hwd hws hal hfit hself (fun s => hdis s hfit)] at hr
+  · rw [append_in_place h dst src self g hch hwd hws hal hfit hself] at hr
     injection hr with _ e; subst e
     exact ⟨rfl, hfit, hal, rfl⟩
   · have hgr : dst.cap < dst.len + src.len := by omega
